@@ -982,3 +982,116 @@ SUBS = [
     Sub("integer_lattice", check_lattice, enum=enum_lattice, doc="2D element type x lattice origin x ordering of the integer-typed query points"),
     Sub("projector", check_projector, gen=projector_cases, quick=100, thorough=600, shards=4),
 ]
+
+
+# ------------------------------------------------------------------------------------------
+# (added by the lead, round 8) meshes written by hand on an integer lattice, the coordinate array handed over with an integer
+# dtype (GroupElemFactory.Create + Mesh): lengths / areas / volumes and the centre are those of the same mesh given in floats and
+# the closed forms computed from the coordinates, before and after the mesh is translated, rotated and mirrored by amounts that do
+# not map the lattice onto itself (the moved coordinates are compared with the harness's own motion)
+
+
+def _lattice_mesh(kind, dtype):
+    from EasyFEA.FEM import ElemType, GroupElemFactory, Mesh
+
+    if kind.startswith("seg"):
+        pts = {"seg_plane": [[0, 0, 0], [1, 1, 0], [2, 3, 0], [5, 3, 0], [6, -1, 0]],
+               "seg_space": [[0, 0, 0], [1, 1, 1], [2, 3, -1], [5, 3, 2], [6, -1, 2]],
+               "seg_axis": [[0, 0, 0], [2, 0, 0], [3, 0, 0], [7, 0, 0], [8, 0, 0]]}[kind]
+        coord = np.array(pts)
+        conn = np.stack([np.arange(4), np.arange(1, 5)], 1)
+        et, meas = ElemType.SEG2, np.linalg.norm(np.diff(coord.astype(float), axis=0), axis=1)
+    elif kind.startswith(("quad", "tri")):
+        nx, ny = 3, 2
+        idx = np.arange((nx + 1) * (ny + 1)).reshape(ny + 1, nx + 1)
+        X, Y = np.meshgrid(np.arange(nx + 1), np.arange(ny + 1))
+        # a lattice sheared inside its plane (integer shear), lying in z = 0 or on the plane z = x + 2 y
+        coord = np.stack([(2 * X + Y).ravel(), (3 * Y - X).ravel(), ((X + 2 * Y) if kind.endswith("space") else 0 * X).ravel()], 1)
+        q = np.stack([idx[:-1, :-1], idx[:-1, 1:], idx[1:, 1:], idx[1:, :-1]], -1).reshape(-1, 4)
+        if kind.startswith("quad"):
+            conn, et = q, ElemType.QUAD4
+        else:
+            conn, et = np.concatenate([q[:, [0, 1, 2]], q[:, [0, 2, 3]]]), ElemType.TRI3
+        P = coord.astype(float)[conn]
+        tri = lambda a, b, c: 0.5 * np.linalg.norm(np.cross(b - a, c - a), axis=1)  # noqa: E731
+        meas = tri(P[:, 0], P[:, 1], P[:, 2]) + (tri(P[:, 0], P[:, 2], P[:, 3]) if et == ElemType.QUAD4 else 0.0)
+    else:
+        nx, ny, nz = 2, 2, 1
+        idx = np.arange((nx + 1) * (ny + 1) * (nz + 1)).reshape(nz + 1, ny + 1, nx + 1)
+        Z, Y, X = np.meshgrid(np.arange(nz + 1), np.arange(ny + 1), np.arange(nx + 1), indexing="ij")
+        coord = np.stack([(2 * X + Y).ravel(), (3 * Y - X + Z).ravel(), (2 * Z + X).ravel()], 1)
+        h = np.stack([idx[:-1, :-1, :-1], idx[:-1, :-1, 1:], idx[:-1, 1:, 1:], idx[:-1, 1:, :-1],
+                      idx[1:, :-1, :-1], idx[1:, :-1, 1:], idx[1:, 1:, 1:], idx[1:, 1:, :-1]], -1).reshape(-1, 8)
+        vol6 = lambda a, b, c, d: np.abs(np.einsum("ij,ij->i", np.cross(b - a, c - a), d - a)) / 6.0  # noqa: E731
+        if kind == "hexa":
+            conn, et = h, ElemType.HEXA8
+            P = coord.astype(float)[conn]
+            meas = np.abs(np.einsum("ij,ij->i", np.cross(P[:, 1] - P[:, 0], P[:, 3] - P[:, 0]), P[:, 4] - P[:, 0]))  # parallelepipeds
+        else:
+            tets = [[0, 1, 3, 4], [1, 2, 3, 6], [1, 4, 5, 6], [3, 4, 6, 7], [1, 3, 4, 6]]
+            conn, et = np.concatenate([h[:, t] for t in tets]), ElemType.TETRA4
+            P = coord.astype(float)[conn]
+            meas = vol6(P[:, 0], P[:, 1], P[:, 2], P[:, 3])
+    g = GroupElemFactory.Create(et, conn.astype(int), coord.astype(dtype))
+    return Mesh({et: g}), coord.astype(float), conn, meas
+
+
+def enum_integer_coords(tier):
+    for kind in ("seg_plane", "seg_space", "seg_axis", "tri_plane", "tri_space", "quad_plane", "quad_space", "tetra", "hexa"):
+        for dtype in ("int64", "int32"):
+            for motion in ("none", "translate", "rotate", "mirror", "all"):
+                yield dict(kind=kind, dtype=dtype, motion=motion)
+
+
+def check_integer_coords(case, rec):
+    kind, motion = case["kind"], case["motion"]
+    sig = dict(kind=kind, dtype=case["dtype"], motion=motion)
+    rec.label("lattice:" + kind, "motion:" + motion, "dtype:" + case["dtype"])
+    mesh, X, conn, meas = _lattice_mesh(kind, np.dtype(case["dtype"]))
+    ref, _, _, _ = _lattice_mesh(kind, float)
+    planar = kind in ("seg_plane", "seg_axis", "tri_plane", "quad_plane")
+    axis = np.array([0.0, 0.0, 1.0]) if planar else np.array([1.0, 2.0, 2.0]) / 3.0
+    nrm = np.array([3.0, 4.0, 0.0]) / 5.0 if planar else np.array([2.0, -1.0, 2.0]) / 3.0
+    pt = np.array([0.5, -0.25, 0.0])
+    todo = {"none": [], "translate": ["t"], "rotate": ["r"], "mirror": ["m"], "all": ["r", "t", "m"]}[motion]
+    Y = X.copy()
+    for m in (mesh, ref):
+        g0 = m.Get_list_groupElem(m.dim)[0]
+        _ = g0.Get_weightedJacobian_e_pg(MatrixType.mass)  # geometric caches warm before the motion
+    for op in todo:
+        if op == "t":
+            t = np.array([2.5, -4.25, 0.0 if planar else 1.125])
+            for m in (mesh, ref):
+                m.Translate(*t)
+            Y = Y + t
+        elif op == "r":
+            for m in (mesh, ref):
+                m.Rotate(33.0, tuple(pt), tuple(axis))
+            th = np.deg2rad(33.0)
+            Kx = np.array([[0, -axis[2], axis[1]], [axis[2], 0, -axis[0]], [-axis[1], axis[0], 0]])
+            Rm = np.eye(3) + np.sin(th) * Kx + (1 - np.cos(th)) * Kx @ Kx
+            Y = (Y - pt) @ Rm.T + pt
+        else:
+            for m in (mesh, ref):
+                m.Symmetry(tuple(pt), tuple(nrm))
+            Y = Y - 2.0 * ((Y - pt) @ nrm)[:, None] * nrm[None, :]
+    scale = float(np.abs(Y).max()) + 1.0
+    rec.close(np.asarray(mesh.coord, float) - Y, scale, 1e-13, "moved_coordinates",
+              f"{kind} given as {case['dtype']}, {motion}: node coordinates differ from the moved lattice", **sig)
+    g = mesh.Get_list_groupElem(mesh.dim)[0]
+    gr = ref.Get_list_groupElem(ref.dim)[0]
+    name = {1: "length_e", 2: "area_e", 3: "volume_e"}[mesh.dim]
+    me, mr = np.asarray(getattr(g, name), float), np.asarray(getattr(gr, name), float)
+    ms = float(np.abs(meas).max())
+    rec.close(me - meas, ms, 1e-12, "element_measures", f"{kind} given as {case['dtype']}, {motion}: {name} = {me[:4]} ..., closed form {meas[:4]} ...", **sig)
+    rec.close(me - mr, ms, 1e-12, "same_as_float_mesh", f"{kind}: {name} of the mesh given as {case['dtype']} differs from the mesh given as float", **sig)
+    cen = np.asarray(mesh.center, float)
+    Pc = Y[conn].mean(axis=1)  # centroids of segments, triangles, parallelograms, parallelepipeds and tetrahedra
+    cex = (Pc * meas[:, None]).sum(axis=0) / meas.sum()
+    rec.close(cen - cex, scale, 1e-12, "center", f"{kind} given as {case['dtype']}, {motion}: centre {cen} vs {cex}", **sig)
+    rec.nontrivial(True)
+
+
+SUBS.append(Sub("integer_coords", check_integer_coords, enum=enum_integer_coords,
+                doc="hand-written lattice meshes (SEG2 in the plane / in space / on the x axis, TRI3 and QUAD4 in the plane and embedded, TETRA4, "
+                    "HEXA8) x integer dtype of the coordinate array x motion"))
